@@ -5,7 +5,7 @@ from __future__ import annotations
 import ast
 
 from .. import AnalysisError
-from ..astutil import Deps, is_name, norm_cond
+from ..astutil import Deps, is_name, norm_cond, unwrap
 from ..cfg import CFG, Node
 from ..engine import Analysis
 from ..kinds import NOVALUE, anything, both, call_nodes, calls_to, normal_only, q, scenario, strict_but, token_assert, token_assert_for
@@ -149,9 +149,41 @@ def check(an: Analysis) -> None:
             return out_
 
         attached = wrappers_of(arg)
-        if not attached:
+        # the wrappers as module-level functions bound with functools.partial(<wrapper>, completion, self) - the wrapper chosen by
+        # a conditional expression or per branch
+        bound_form = False
+        parg = unwrap(dinit.inline(arg)) if arg is not None else None
+        if not attached and isinstance(parg, ast.Call) and an.callee(init, parg) == "functools.partial" and parg.args and not parg.keywords and not any(isinstance(a_, ast.Starred) for a_ in parg.args):
+            heads: list[ast.AST] = [unwrap(parg.args[0])]
+            fns_: list[FunctionInfo] = []
+            while heads:
+                h_ = heads.pop()
+                if isinstance(h_, ast.IfExp):
+                    heads += [unwrap(h_.body), unwrap(h_.orelse)]
+                elif isinstance(h_, ast.Name) and (t_ := prog.functions.get(prog.resolve_global(init.module, h_.id) or "")) is not None and t_.module is init.module:
+                    fns_.append(t_)
+                else:
+                    fns_ = []
+                    break
+            if fns_:
+                bound_form = True
+                for t_ in fns_:
+                    a_ = t_.node.args
+                    pos_ = [p.arg for p in a_.posonlyargs + a_.args]
+                    given_ = dict(zip(pos_, parg.args[1:]))
+                    cparam = [p for p, v in given_.items() if dinit.of(v) == {"param:completion"} or "param:completion" in dinit.origins(v)]
+                    mparam = [p for p, v in given_.items() if is_name(unwrap(v), "self")]
+                    calls_ = [c for c in t_.own_nodes() if isinstance(c, ast.Call) and isinstance(c.func, ast.Name) and c.func.id in cparam]
+                    ob.inst(t_, calls_[0] if calls_ else None, "callback body")
+                    if len(pos_) != len(given_) + 1:
+                        ob.fail(t_, None, "the bound completion wrapper cannot be called with the completed future as its only further argument")
+                    if len(calls_) != 1:
+                        ob.fail(t_, None, f"callback variant invokes the completion {len(calls_)} times (must be exactly once)")
+                    elif not (len(calls_[0].args) == 1 and isinstance(calls_[0].args[0], ast.Name) and calls_[0].args[0].id in mparam):
+                        ob.fail(t_, calls_[0], "completion is not called with the finished scope metrics")
+        if not attached and not bound_form:
             ob.fail(init, cbs[0][1], "the done-callback is not one of the local completion wrappers")
-            attached = set()
+        attached = attached or set()
         for nf in cbfuns:
             if nf.name in attached:
                 d = Deps(prog, nf)
